@@ -68,6 +68,9 @@ def build_harness():
     return CVH
 
 
+UNINSTRUMENTED = set()
+
+
 def cvh(args, timeout=600, check=True):
     """Run a harness subcommand; returns (summary dict, raw output)."""
     build_harness()
@@ -78,6 +81,9 @@ def cvh(args, timeout=600, check=True):
             summ = json.loads(l[8:])
     if summ is None and check:
         raise ToolError("harness %s gave no summary (rc=%s):\n%s" % (args[0], rc, out[-3000:]))
+    if summ and summ.get("uninstrumented"):
+        # the instrumentation self-probe failed for some sink families: their runs were skipped, not judged
+        UNINSTRUMENTED.update(summ["uninstrumented"])
     return summ, out
 
 
@@ -325,6 +331,9 @@ class Result:
         cov = dict(self.cov)
         cov["exhaustive"] = False
         cov.update(self.notes)
+        if UNINSTRUMENTED:
+            self.divergences.insert(0, {"what": "instrumentation self-probe failed: the hook points of these sink families are not reported by "
+                                               "the code under test, their runs were skipped and NOT judged", "families": sorted(UNINSTRUMENTED)})
         if self.divergences:
             cov["model_divergences"] = self.divergences[:5]
         if self.other_flags:
